@@ -40,6 +40,9 @@ CONSTANTS MaxH, MaxD,   \* MAX = MaxH*H + MaxD   ([2,1] symbolic, [0,19] small)
                         \* "frag": one named fragment spread several times; "hist": see ComplexityGate;
                         \* "bind": operations through GraphQL fields that SHARE one ComplexityRoot entry
                         \*         + the Complexity(type, field) table of the whole schema
+                        \* "iface": ONE operation selects the same field of an INTERFACE several times (aliases,
+                        \*         fragments, nested) with different arguments / sub-selections, in both orders,
+                        \*         under cost functions that make the most expensive implementor differ per occurrence
           Emit          \* print (input, outcome) pairs
 
 VARIABLES pc, tree, asg, out,
@@ -142,10 +145,18 @@ ASSUME SAddTheorems
 FB(t, a, b, h, o) == [type |-> t, arg |-> a, bind |-> b, how |-> h, ord |-> o]
 F(t, a) == FB(t, a, "", "", 1)
 NoFields == [x \in {} |-> F("", FALSE)]
+\* interface Box (probe: c.graphqls): its fields take an ARGUMENT (items(x)) and have COMPOSITE result types
+\* (items: A, inner: Box), and it has two OBJECT implementors - so which implementor is the most expensive
+\* depends on the occurrence (its argument, its children's cost), not on the field alone
+BoxFields == [id |-> F("ID", FALSE), items |-> F("A", TRUE), inner |-> F("Box", FALSE)]
 Schema == [
   Query |-> [kind |-> "OBJECT", impl |-> <<>>, possible |-> <<>>,
              fields |-> [a |-> F("A", FALSE), node |-> F("Node", FALSE), u |-> F("U", FALSE),
-                         s |-> F("String", FALSE), withArgs |-> F("String", TRUE), sh |-> F("Sh", FALSE)]],
+                         s |-> F("String", FALSE), withArgs |-> F("String", TRUE), sh |-> F("Sh", FALSE),
+                         box |-> F("Box", FALSE)]],
+  Box     |-> [kind |-> "INTERFACE", impl |-> <<>>, possible |-> <<"Archive", "Shelf">>, fields |-> BoxFields],
+  Shelf   |-> [kind |-> "OBJECT", impl |-> <<"Box">>, possible |-> <<>>, fields |-> BoxFields],
+  Archive |-> [kind |-> "OBJECT", impl |-> <<"Box">>, possible |-> <<>>, fields |-> BoxFields],
   Node  |-> [kind |-> "INTERFACE", impl |-> <<>>, possible |-> <<"Named", "A", "B">>,
              fields |-> [id |-> F("ID", FALSE), name |-> F("String", FALSE)]],
   Named |-> [kind |-> "INTERFACE", impl |-> <<"Node">>, possible |-> <<"A">>,
@@ -305,8 +316,39 @@ BindTrees ==
   \cup { <<InSh(<<SpSh(<<L(h)>>), L("id"), SpSh(<<L(h)>>)>>)>> : h \in ShStrFields }
 \* "no operation": the case that carries the Complexity(type, field) table of the whole schema
 NoOp == <<>>
+
+\* ONE operation selects the same interface field (Box.items / Box.inner) SEVERAL times.  Occurrences differ in
+\* the argument (x = 3 / x = 100 / absent) and in the sub-selection (children's cost 1 / 2 / 4); every context
+\* occurs in both orders (first occurrence, second occurrence) - sibling order is part of the INPUT here, the
+\* concretiser keeps it (TPerm says it is irrelevant to Cx; an implementation that carries anything from one
+\* occurrence to the next is order-sensitive).
+OcC  == Fld("items", "set",  <<L("id")>>)                                          \* x = 3,   children 1
+OcB  == Fld("items", "big",  <<L("id"), L("name")>>)                               \* x = 100, children 2
+OcC2 == Fld("items", "set",  <<L("id"), L("name")>>)                               \* x = 3,   children 2
+OcB1 == Fld("items", "big",  <<L("id")>>)                                          \* x = 100, children 1
+OcN  == Fld("items", "none", <<L("id"), L("name"), Fld("kid", "none", <<L("id")>>)>>)  \* x absent, children 4
+Bx(ss)    == Fld("box", "none", ss)
+Inn(ss)   == Fld("inner", "none", ss)
+SpBox(ss) == Frag("spread", "Box", ss)
+IfacePairs == { <<OcC, OcB>>, <<OcC2, OcB1>>, <<OcN, OcB>> }
+IfaceCtx(c, b) ==
+  { <<Bx(<<c, b>>)>>,                                     \* siblings (aliases)
+    <<Bx(<<c>>), Bx(<<b>>)>>,                              \* below two selections of the parent field
+    <<Bx(<<c, SpBox(<<b>>)>>)>>,                           \* the later one inside a named fragment
+    <<Bx(<<SpBox(<<c>>), b>>)>>,                           \* the earlier one inside a named fragment
+    <<Bx(<<Frag("inline", "Box", <<c>>), b>>)>>,           \* inside an inline fragment on the interface
+    <<Bx(<<c, Inn(<<b>>)>>)>>,                             \* nested below another interface field (priced before it)
+    <<Bx(<<Inn(<<c>>), b>>)>>,
+    <<Bx(<<c, b, c>>)>>,                                   \* three occurrences
+    <<Bx(<<SpBox(<<c>>), b, SpBox(<<c>>)>>)>>,             \* one named fragment spread before and after
+    <<Bx(<<Frag("inline", "Shelf", <<c>>), b>>)>> }        \* control: one of them on the OBJECT type (no maximum)
+IfaceTrees == UNION {IfaceCtx(p[1], p[2]) \cup IfaceCtx(p[2], p[1]) : p \in IfacePairs}
+              \cup { <<Bx(<<OcC>>)>>, <<Bx(<<OcB>>)>>,                           \* controls: a single occurrence
+                     <<Bx(<<Inn(<<L("id")>>), Inn(<<OcB>>)>>)>>,                 \* Box.inner twice: children 1 / large
+                     <<Bx(<<Inn(<<OcB>>), Inn(<<L("id")>>)>>)>> }
 Trees == IF Corpus = "grid" THEN GridTrees ELSE IF Corpus = "frag" THEN FragTrees
-         ELSE IF Corpus = "bind" THEN BindTrees \cup {NoOp} ELSE GenTrees
+         ELSE IF Corpus = "bind" THEN BindTrees \cup {NoOp}
+         ELSE IF Corpus = "iface" THEN IfaceTrees ELSE GenTrees
 
 (***************************************************************************)
 (* Custom cost functions (user code: they compute on machine ints and      *)
@@ -330,6 +372,12 @@ BaseFamily == {Fn("const", c, 0) : c \in ConstSet} \cup {Fn("add", c, 0) : c \in
 FragFamily == {Fn("const", Zero, 0), Fn("const", N(0, 2), 0), Fn("const", N(0, -1), 0), Fn("add", N(0, 2), 0),
                Fn("mul", Zero, 2), Fn("mul", Zero, 3)}
 BindFamily == {Fn("const", Zero, 0), Fn("const", N(0, 2), 0), Fn("add", N(0, 2), 0), Fn("mul", Zero, 3)}
+\* implementors of one interface field get DIFFERENT functions: one grows with the argument (x * (1 + child),
+\* child + x), one is constant-high (50), one multiplies the children's cost, one adds to it
+Flat == N(0, 50)
+IfaceFamily == {Fn("const", Flat, 0), Fn("mul", Zero, 3)}
+IfaceInnerFamily == {Fn("const", Flat, 0), Fn("mul", Zero, 2), Fn("add", Flat, 0)}
+IfaceSlotNames == {"Shelf.items", "Archive.items", "Shelf.inner", "Archive.inner"}
 GridConsts == SGrid
 GridFamily == {Fn("const", c, 0) : c \in GridConsts}
 
@@ -354,6 +402,7 @@ FamilyOf(sl) ==
   IF Corpus = "grid" THEN GridFamily
   ELSE IF Corpus = "frag" THEN FragFamily \cup (IF sl.arg THEN {Fn("arg", Zero, 0)} ELSE {})
   ELSE IF Corpus = "bind" THEN BindFamily \cup (IF sl.arg THEN {Fn("arg", Zero, 0), Fn("argmul", Zero, 0)} ELSE {})
+  ELSE IF Corpus = "iface" THEN (IF sl.arg THEN IfaceFamily \cup {Fn("arg", Zero, 0), Fn("argmul", Zero, 0)} ELSE IfaceInnerFamily)
   ELSE BaseFamily \cup (IF sl.arg THEN {Fn("arg", Zero, 0)} ELSE {})
 
 PairAsgs(E, k) ==
@@ -371,9 +420,21 @@ TableAsgs ==
   \cup {{[slot |-> e.slot, fn |-> Fn("arg", Zero, 0)]} : e \in {x \in AllEntries : x.arg}}
   \cup {{[slot |-> e.slot, fn |-> Fn("const", N(0, 7), 0)] : e \in AllEntries}}
   \cup {{}}
+\* assignments on more than two entries: both pairs of implementors at once, a multiplier above, a cost below
+E(slot, fn) == [slot |-> slot, fn |-> fn]
+IfaceGrow == {E("Shelf.items", Fn("argmul", Zero, 0)), E("Archive.items", Fn("const", Flat, 0))}
+IfaceDesignated ==
+  { IfaceGrow \cup {E("Shelf.inner", Fn("mul", Zero, 2)), E("Archive.inner", Fn("add", Flat, 0))},
+    {E("Archive.items", Fn("argmul", Zero, 0)), E("Shelf.items", Fn("const", Flat, 0)),
+     E("Archive.inner", Fn("mul", Zero, 2)), E("Shelf.inner", Fn("add", Flat, 0))},
+    IfaceGrow \cup {E("Query.box", Fn("mul", Zero, 2))},
+    IfaceGrow \cup {E("A.id", Fn("const", N(0, 2), 0))},
+    {E("Shelf.items", Fn("arg", Zero, 0)), E("Archive.items", Fn("mul", Zero, 3)), E("Query.box", Fn("add", N(0, 2), 0))} }
 Asgs(t) ==
   LET S == Slots("Query", t, 1) IN
   IF Corpus = "bind" /\ t = NoOp THEN TableAsgs
+  ELSE IF Corpus = "iface"
+  THEN PairAsgs(EntriesOf({sl \in S : sl.slot \in IfaceSlotNames}), 2) \cup IfaceDesignated
   ELSE IF Corpus = "grid"
   THEN LET SL == {sl \in S : sl.slot \notin GridRoots}
            SR == {sl \in S : sl.slot \in GridRoots}
@@ -509,6 +570,57 @@ TBindState == bnd = Binding
 \* ... so an operation costs the same through any field of a group: renaming every selected field to the
 \* next field of its group changes nothing
 TAlias    == Done => Cx(asg, SwapAlias("Query", tree)) = out.cx
+\* THE INTERFACE RULE, PER OCCURRENCE.  Occs lists the selections of interface fields in the order the walker
+\* prices them (a field after its children): key = Interface.field, v = its cost, am = the possible types
+\* whose field rule attains v, ch / x = what the occurrence hands to the cost functions.
+ArgMaxOf(a, tn, s) ==
+  LET child == ChildCx(a, tn, s)
+      m     == CxField(a, tn, s)
+  IN  {t \in Range(Schema[tn].possible) : FieldCost(a, t, s.name, child, ArgOf(s)) = m}
+RECURSIVE Occs(_, _, _, _)
+Occs(a, tn, sels, i) ==
+  IF i > Len(sels) THEN <<>>
+  ELSE LET s == sels[i]
+           here == IF s.k = "field"
+                   THEN (IF s.name \in Meta THEN <<>>
+                         ELSE LET rt    == Schema[tn].fields[s.name].type
+                                  below == IF IsComposite(rt) THEN Occs(a, rt, s.sels, 1) ELSE <<>>
+                                  me    == IF Schema[tn].kind = "INTERFACE"
+                                           THEN <<[key |-> SlotName(tn, s.name), v |-> CxField(a, tn, s),
+                                                   am |-> ArgMaxOf(a, tn, s), ch |-> ChildCx(a, tn, s), x |-> ArgOf(s)]>>
+                                           ELSE <<>>
+                              IN  below \o me)
+                   ELSE Occs(a, OnType(tn, s), s.sels, 1)
+       IN  here \o Occs(a, tn, sels, i + 1)
+\* every occurrence is priced as the maximum over ITS OWN implementors' costs: some possible type attains the
+\* value, none exceeds it - a statement about (children's cost, argument) of that occurrence alone
+TOccMax == Done => LET os == Occs(asg, "Query", tree, 1) IN
+              \A i \in 1..Len(os) :
+                 LET o == os[i]
+                     tn == CHOOSE t \in DOMAIN Schema : \E f \in DOMAIN Schema[t].fields : SlotName(t, f) = o.key
+                     f  == CHOOSE g \in DOMAIN Schema[tn].fields : SlotName(tn, g) = o.key
+                 IN  /\ o.am # {}
+                     /\ \A t \in Range(Schema[tn].possible) : NLe(FieldCost(asg, t, f, o.ch, o.x), o.v)
+                     \* equal (children's cost, argument) => equal price, wherever the occurrences stand
+                     /\ \A j \in 1..Len(os) : (os[j].key = o.key /\ os[j].ch = o.ch /\ os[j].x = o.x) => os[j].v = o.v
+\* PRICING AN OCCURRENCE DOES NOT DEPEND ON THE OTHER OCCURRENCES: at every selection set of the operation the
+\* cost is the saturating sum of its members priced ALONE (each as the only selection of an operation part)
+RECURSIVE SumAlone(_, _, _, _), AloneOK(_, _, _, _)
+SumAlone(a, tn, sels, i) ==
+  IF i > Len(sels) THEN Zero
+  ELSE SAdd(CxAcc(a, tn, <<sels[i]>>, 1, Zero), SumAlone(a, tn, sels, i + 1))
+AloneHere(a, tn, sels) == CxAcc(a, tn, sels, 1, Zero) = SumAlone(a, tn, sels, 1) /\ AloneOK(a, tn, sels, 1)
+AloneOK(a, tn, sels, i) ==
+  i > Len(sels) \/
+  LET s == sels[i] IN
+    /\ (IF s.k = "field"
+        THEN (s.name \in Meta \/
+              LET rt == Schema[tn].fields[s.name].type IN IsComposite(rt) => AloneHere(a, rt, s.sels))
+        ELSE AloneHere(a, OnType(tn, s), s.sels))
+    /\ AloneOK(a, tn, sels, i + 1)
+TOccIndep == Done => AloneHere(asg, "Query", tree)
+\* the iface corpus keeps |d| below 10^5 (x = 100 times small sums, times 2 or 3 a few levels up): still << H/2
+TDBounded == Done => out.cx.d \in -100000..100000 /\ out.cx.h \in 0..MaxH
 TRange    == Done => NLe(Zero, out.cx) /\ NLe(out.cx, MAXN)
 TDSmall   == Done => out.cx.d \in -100..100 /\ out.cx.h \in 0..MaxH
 TChildren == Done => ChildrenOK(asg, "Query", tree, 1)
@@ -551,7 +663,8 @@ TableRows(a) ==
           : t \in ObjTypes }
 EmitEdge == (Emit /\ pc' = "done") =>
   PrintT(ToJson([sels |-> tree, costs |-> asg', cx |-> out'.cx, gate |-> out'.gate,
-                 table |-> IF Corpus = "bind" /\ tree = NoOp THEN TableRows(asg') ELSE {}]))
-EmitSchema == PrintT(ToJson([schema |-> Schema, argval |-> ArgVal, max |-> MAXN, binding |-> Binding]))
+                 table |-> IF Corpus = "bind" /\ tree = NoOp THEN TableRows(asg') ELSE {},
+                 occ |-> IF Corpus = "iface" THEN Occs(asg', "Query", tree, 1) ELSE <<>>]))
+EmitSchema == PrintT(ToJson([schema |-> Schema, argval |-> ArgVal, bigarg |-> BigArg, max |-> MAXN, binding |-> Binding]))
 ASSUME Emit => EmitSchema
 =============================================================================
